@@ -21,6 +21,8 @@ structure TState where
   /-- nodes whose event streams of the current round depend on the interleaving (closed, attached or
       refiltered inside a burst, and everything below them): exact event comparison is skipped -/
   fuzzy : List Nat := []
+  /-- a Close, Refilter or relist happened in the current burst (which events reach whom then depends on the schedule) -/
+  fuzzyHard : Bool := false
   /-- the current observation round follows a burst -/
   burstRound : Bool := false
   /-- nodes closed inside a burst (and everything below): whether they became ready first depends on
@@ -88,6 +90,9 @@ def treeAct (st : TState) (a : SAct) : TState × String :=
     | .attach id _ _ _ => st.fuzzy ++ [id]
     | .relist => st.fuzzy ++ List.range sys'.nodes.length
     | _ => st.fuzzy
+  let hard : Bool := st.inBurst && (st.fuzzyHard || (match a with
+    | .close _ | .refilter _ _ | .relist | .closeRoot => true
+    | _ => false))
   let loose := match a with
     | .close id => if st.inBurst then st.loose ++ subtreeIds sys' id else st.loose
     | .closeRoot => if st.inBurst then List.range sys'.nodes.length else st.loose
@@ -98,7 +103,7 @@ def treeAct (st : TState) (a : SAct) : TState × String :=
   let br := match a with
     | .refilter id _ => if st.inBurst then id :: st.burstRefiltered else []
     | _ => if st.inBurst then st.burstRefiltered else []
-  ({ st with sys := sys', roundCache := [], roundEvs := [], fuzzy := fz, burstRound := st.inBurst, loose := loose,
+  ({ st with sys := sys', roundCache := [], roundEvs := [], fuzzy := fz, fuzzyHard := hard, burstRound := st.inBurst, loose := loose,
              lastRefilter := lr, burstRefiltered := br }, "ok")
 
 def treeLine (st : TState) (e : SExp) : TState × String :=
@@ -170,7 +175,7 @@ def treeLine (st : TState) (e : SExp) : TState × String :=
     match id.toNat?, n.toNat? with
     | some id, some n => ({ st with instant := setNat id n st.instant }, "ok")
     | _, _ => (st, "bad instant")
-  | .list [.atom "burst-begin"] => ({ st with inBurst := true, fuzzy := [], burstRound := true, burstRefiltered := [] }, "ok")
+  | .list [.atom "burst-begin"] => ({ st with inBurst := true, fuzzy := [], fuzzyHard := false, burstRound := true, burstRefiltered := [] }, "ok")
   | .list [.atom "burst-end"] => ({ st with inBurst := false }, "ok")
   | .list [.atom "obs", .atom id, r, d, c, evs, ec] =>
     match id.toNat?, decBool r, decBool d, decCache c, decBool ec with
@@ -270,6 +275,12 @@ def treeLine (st : TState) (e : SExp) : TState × String :=
             | none, none => true
             | _, _ => false) then
           ({ st3 with dead := true }, s!"diff {kind} node {id}: cache is {c.map showObjs}, model {mc.map showObjs}")
+        else if kind == "sub" && st.fuzzy.contains id && !st.fuzzyHard && !stalled && !(st.loose.contains id) && c.isSome &&
+            mevs.length < evCap && ievs.length < evCap && !(sameUpToBatchOrder mevs (ievs.drop (ievs.length - mevs.length))) then
+          -- a plain subscriber created inside a burst of server changes only: what was in flight when Subscribe returned may
+          -- or may not reach it, but every change made after Subscribe returned is published after its subscription was
+          -- created — its events must END with exactly those
+          ({ st3 with dead := true }, s!"reject C05 sub node {id} was created inside a burst and read {showEvs ievs}: that does not end with the events published after Subscribe() returned, {showEvs mevs}")
         else if !(st.fuzzy.contains id) && !sameUpToBatchOrder mevs ievs &&
             -- a filtered leaf whose buffer ran full: which events of a Refilter batch were kept depends on the batch order
             !(isFsubKind kind && mevs.length == evCap && ievs.length == evCap) &&
@@ -278,7 +289,7 @@ def treeLine (st : TState) (e : SExp) : TState × String :=
               (let (k, batch) := s.boundaryOf id
                !batch.isEmpty && sameUpToBatchOrder (mevs.take k) (ievs.take k) &&
                (ievs.drop k).all (fun e => countEv e (ievs.drop k) ≤ countEv e batch))) then
-          ({ st3 with dead := true }, (if kind == "sub" then "reject C05/C10 " else "diff ") ++ s!"{kind} node {id}: events {showEvs ievs}, published {showEvs mevs}")
+          ({ st3 with dead := true }, (if kind == "sub" then "reject C05/C10 " else if st.everStalled.contains id then "reject C10 " else "diff ") ++ s!"{kind} node {id}: events {showEvs ievs}, published {showEvs mevs}")
         else if hasEvents && !stalled && ec != md then
           ({ st3 with dead := true }, s!"reject C11/C12 {kind} node {id}: Events() closed is {ec}, node done is {md}")
         else (st3, "ok")
